@@ -3,6 +3,7 @@ import CfbVerif.Phys.Log
 import CfbVerif.Handle.Lemmas
 import CfbVerif.Phys.Grow
 import CfbVerif.Phys.MiniContent
+import CfbVerif.Phys.RootReach
 /-!
 # C08 — bytes gained by growing a stream read as zero, whatever was there before
 
@@ -163,5 +164,21 @@ theorem C08_new_mini_sector_zero {p : P} (ss : SS p) {root : List Nat} (hroot : 
   rw [hw] at hw'
   cases hw'
   exact ⟨p', hw, hz, hfr, hout⟩
+
+/-- **… for every state the store machine reaches, with no premise left**: after any history of store
+operations and reopens from a fresh file of either version, zero-filling any mini sector `m` of the
+MiniFAT — what `MiniChain::set_len` does to each mini sector it adds — succeeds, makes `m` read as 64
+zeros and leaves every other mini sector of the MiniFAT as it was (`Phys/RootReach.lean`: sector sizes,
+the walkable duplicate-free chain of the mini stream and the range of `m` all come from the
+invariants of the reachable states) -/
+theorem C08_new_mini_sector_zero_reachable (v4 : Bool) (ops : List GOp) :
+    let g0 : G := { p := Phys.create v4, L := fun _ => 0 }
+    WritesInRange g0 ops → MiniBounded g0 ops → (grun g0 ops).p.fat.size ≤ MAXREG + 1 →
+    ∀ m, m < (grun g0 ops).p.miniFat.size →
+    ∃ root p', chainIds (grun g0 ops).p (grun g0 ops).p.rootStart = .ok root ∧
+      miniWriteAt (grun g0 ops).p m 0 (List.replicate MINI 0) = .ok p' ∧
+      miniBlk p' root m = List.replicate 64 0 ∧
+      (∀ m2, m2 ≠ m → m2 < (grun g0 ops).p.miniFat.size → miniBlk p' root m2 = miniBlk (grun g0 ops).p root m2) :=
+  mini_zero_reachable v4 ops
 
 end CfbVerif.Props.C08
